@@ -50,6 +50,15 @@ def gen_nz(rnd):
     kind = rnd.choice(['bond', 'bond', 'site'])
     samples = rnd.choice([2, 3, 5, 11, 30, [0.0, 0.5, 1.0], [0.25, 1.0], [0.0, 0.3, 0.6], [0.1, 0.2, 0.3, 0.9, 1.0], [1.0], [0.5],
                           [0.0, 1.0], [0.0, 0.125, 0.25, 0.375, 0.5, 0.625, 0.75, 0.875, 1.0]])
+    M = len(edges) if kind == 'bond' else n
+    if M >= 1 and rnd.random() < 0.35:
+        # sample points on and within an ulp of the attainable fractions k/M, and their short decimals: where (i+1)/M >= p is decided by rounding
+        import math
+        pts = set()
+        for _ in range(rnd.randint(1, 5)):
+            k = rnd.randint(0, M); q = k / M
+            pts.add(rnd.choice([q, math.nextafter(q, 2.0), math.nextafter(q, -1.0), round(q, 2), round(q, 3)]))
+        samples = sorted(x for x in pts if 0.0 <= x <= 1.0) or [1.0]
     return dict(kind=kind, n=n, edges=edges, samples=samples, seed=rnd.random())
 
 
@@ -203,7 +212,14 @@ def gen_perc(rnd):
     n, edges = rand_graph(rnd, 1, 9)
     M = len(edges)
     T = rnd.choice([0.0, 1.0, 0.5, 0.25, 0.75, 0.125, rnd.random(), (rnd.randrange(M + 1) / M) if M else 0.5])
-    return dict(kind='perc', n=n, edges=edges, T=T, seed=rnd.random(), follow=rnd.random() < 0.5)
+    spec = dict(kind='perc', n=n, edges=edges, T=T, seed=rnd.random(), follow=rnd.random() < 0.5)
+    if rnd.random() < 0.4 and M:
+        # an earlier run of the same objects over a different network (often one with the same number of edges)
+        perm = list(range(n)); rnd.shuffle(perm)
+        prev = [[perm[a], perm[b]] for a, b in edges]
+        if rnd.random() < 0.3: prev = prev[:-1]
+        spec.update(prev_edges=prev, prev_T=rnd.choice([0.0, 0.5, 1.0]))
+    return spec
 
 
 class Probe(Process):
@@ -246,6 +262,12 @@ def run_perc14(spec):
     d = StochasticDynamics(top, g)
     exp = []; viol = []; info = dict(samples=1, exc=None)
     try:
+        if spec.get('prev_edges') is not None:
+            from epydemic import FixedNetwork
+            g0 = nx.Graph(); g0.add_nodes_from(range(n)); g0.add_edges_from([tuple(e) for e in spec['prev_edges']])
+            d.setNetworkGenerator(FixedNetwork(g0))
+            d.set({Percolate.T: spec['prev_T']}); d.setUp(d.parameters()); d.tearDown()
+            d.setNetworkGenerator(FixedNetwork(g)); order.clear(); st.clear(); Probe.seen = None
         d.set({Percolate.T: T}); d.setUp(d.parameters())
         wg = d.network()
         M = len(order.get('es', []))
